@@ -1,7 +1,276 @@
 import M3d.Basic
-/-! Line-protocol handler for C02. Core-only. (stub) -/
+import M3d.Model.MarchingMesh
+import M3d.Model.Bisect
+import M3d.Model.DualContour
+import M3d.Gen.McTable
+/-! Line-protocol handler for C02. Core-only. -/
 namespace M3d.Drv.C02
+open M3d M3d.Marching
 
-def handleAll (ws : List String) : Option String := none
+/-! ### the solid language of harness/cmd/c02/csg.go, evaluated exactly on `Rat` -/
+
+inductive Csg where
+  | box (p : Array Rat)
+  | ball (p : Array Rat)
+  | half (p : Array Rat)
+  | vox (p : Array Rat) (nx ny nz : Nat) (bits : Array Bool)
+  | or (a b : Csg)
+  | and (a b : Csg)
+  | sub (a b : Csg)
+deriving Inhabited
+
+def takeRats (n : Nat) (ws : List String) : Option (Array Rat × List String) := do
+  let rs ← (ws.take n).mapM parseRat
+  if rs.length ≠ n then none else some (rs.toArray, ws.drop n)
+
+def bitsOf (s : String) : Array Bool :=
+  if s == "-" then #[] else (s.toList.map (· == '1')).toArray
+
+partial def parseCsg (ws : List String) : Option (Csg × List String) :=
+  match ws with
+  | "box" :: r => do let (p, r) ← takeRats 6 r; some (.box p, r)
+  | "ball" :: r => do let (p, r) ← takeRats 4 r; some (.ball p, r)
+  | "half" :: r => do let (p, r) ← takeRats 3 r; some (.half p, r)
+  | "vox" :: r => do
+      let (p, r) ← takeRats 4 r
+      match r with
+      | a :: b :: c :: bits :: r => some (.vox p (← a.toNat?) (← b.toNat?) (← c.toNat?) (bitsOf bits), r)
+      | _ => none
+  | "or" :: r => do let (a, r) ← parseCsg r; let (b, r) ← parseCsg r; some (.or a b, r)
+  | "and" :: r => do let (a, r) ← parseCsg r; let (b, r) ← parseCsg r; some (.and a b, r)
+  | "sub" :: r => do let (a, r) ← parseCsg r; let (b, r) ← parseCsg r; some (.sub a b, r)
+  | _ => none
+
+def contains : Csg → Rat → Rat → Rat → Bool
+  | .box p, x, y, z =>
+    decide (p[0]! ≤ x) && decide (p[1]! ≤ y) && decide (p[2]! ≤ z) &&
+    decide (x ≤ p[3]!) && decide (y ≤ p[4]!) && decide (z ≤ p[5]!)
+  | .ball p, x, y, z =>
+    let dx := x - p[0]!; let dy := y - p[1]!; let dz := z - p[2]!
+    decide (dx * dx + dy * dy + dz * dz ≤ p[3]! * p[3]!)
+  | .half p, x, y, z =>
+    let c := if p[0]! == 0 then x else if p[0]! == 1 then y else z
+    if p[1]! > 0 then decide (c ≤ p[2]!) else decide (p[2]! ≤ c)
+  | .vox p nx ny nz bits, x, y, z =>
+    let ix := ((x - p[0]!) / p[3]! + 1 / 2).floor
+    let iy := ((y - p[1]!) / p[3]! + 1 / 2).floor
+    let iz := ((z - p[2]!) / p[3]! + 1 / 2).floor
+    if ix < 0 || iy < 0 || iz < 0 || ix ≥ nx || iy ≥ ny || iz ≥ nz then false
+    else bits.getD (ix.toNat + nx * (iy.toNat + ny * iz.toNat)) false
+  | .or a b, x, y, z => contains a x y z || contains b x y z
+  | .and a b, x, y, z => contains a x y z && contains b x y z
+  | .sub a b, x, y, z => contains a x y z && !contains b x y z
+
+def strLt (a b : String) : Bool := a < b
+def sortStrs (xs : List String) : List String := (xs.toArray.qsort strLt).toList
+
+def dedupSorted : List String → List String
+  | a :: b :: r => if a == b then dedupSorted (b :: r) else a :: dedupSorted (b :: r)
+  | l => l
+
+/-! ### marching cubes / squares: vertex set -/
+
+/-- `mcv NX NY NZ bits`: the vertex set the property demands — one vertex at the midpoint of every
+lattice edge whose ends are labelled differently, nothing else (doubled index coordinates) — after
+checking that the table-driven whole-lattice model mesh has exactly that vertex set. -/
+def handleMcv (ws : List String) : Option String := do
+  let nx ← (← ws[0]?).toNat?; let ny ← (← ws[1]?).toNat?; let nz ← (← ws[2]?).toNat?
+  let b := bitsOf (← ws[3]?)
+  if b.size ≠ nx * ny * nz then none
+  let lab : Nat → Nat → Nat → Bool := fun x y z =>
+    if x ≥ nx || y ≥ ny || z ≥ nz then false else b.getD (x + nx * (y + ny * z)) false
+  let showGV := fun (v : GV) => s!"{v.1}.{v.2.1}.{v.2.2}"
+  let mesh := mcMesh Gen.mcTable (nx - 1) (ny - 1) (nz - 1) lab
+  let mverts := dedupSorted (sortStrs (mesh.flatMap fun t => [showGV t.1, showGV t.2.1, showGV t.2.2]))
+  let spec := sortStrs <|
+    (List.range nz).flatMap fun z => (List.range ny).flatMap fun y => (List.range nx).flatMap fun x =>
+      (if x + 1 < nx && lab x y z != lab (x+1) y z then [showGV (2*x+1, 2*y, 2*z)] else []) ++
+      (if y + 1 < ny && lab x y z != lab x (y+1) z then [showGV (2*x, 2*y+1, 2*z)] else []) ++
+      (if z + 1 < nz && lab x y z != lab x y (z+1) then [showGV (2*x, 2*y, 2*z+1)] else [])
+  if mverts != spec then some "model-mesh-vertices-differ-from-sign-changing-edges"
+  else some s!"n={spec.length} side=1 {";".intercalate spec}"
+
+def handleMsv (ws : List String) : Option String := do
+  let nx ← (← ws[0]?).toNat?; let ny ← (← ws[1]?).toNat?
+  let b := bitsOf (← ws[2]?)
+  if b.size ≠ nx * ny then none
+  let lab : Nat → Nat → Bool := fun x y =>
+    if x ≥ nx || y ≥ ny then false else b.getD (x + nx * y) false
+  let showGV := fun (v : GV2) => s!"{v.1}.{v.2}"
+  let mesh := msMesh Gen.msTable (nx - 1) (ny - 1) lab
+  let mverts := dedupSorted (sortStrs (mesh.flatMap fun t => [showGV t.1, showGV t.2]))
+  let spec := sortStrs <|
+    (List.range ny).flatMap fun y => (List.range nx).flatMap fun x =>
+      (if x + 1 < nx && lab x y != lab (x+1) y then [showGV (2*x+1, 2*y)] else []) ++
+      (if y + 1 < ny && lab x y != lab x (y+1) then [showGV (2*x, 2*y+1)] else [])
+  if mverts != spec then some "model-mesh-vertices-differ-from-sign-changing-edges"
+  else some s!"n={spec.length} side=1 {";".intercalate spec}"
+
+/-! ### search refinement -/
+
+def setAt (c : List Rat) (k : Nat) (v : Rat) : List Rat := c.set k v
+
+def show3 (c : List Rat) : String := ",".intercalate (c.map showRat)
+
+/-- `mcs iters interior ox oy oz delta NX NY NZ <csg>`: every sign-changing lattice edge carries one
+vertex, refined by the model of `mcSearchPoint` (edge recovered by the model of `LookupEdgePoint`
+from the midpoint, exactly as the code does). -/
+def handleMcs (ws : List String) : Option String := do
+  let iters ← (← ws[0]?).toNat?
+  let interior ← (← ws[1]?).toNat?
+  let (o, r) ← takeRats 4 (ws.drop 2)
+  let nx ← (← r[0]?).toNat?; let ny ← (← r[1]?).toNat?; let nz ← (← r[2]?).toNat?
+  let (t, _) ← parseCsg (r.drop 3)
+  let d := o[3]!
+  let origin := [o[0]!, o[1]!, o[2]!]
+  let pt := fun (x y z : Nat) => [o[0]! + (x : Rat) * d, o[1]! + (y : Rat) * d, o[2]! + (z : Rat) * d]
+  let C := fun (c : List Rat) => contains t (c.getD 0 0) (c.getD 1 0) (c.getD 2 0)
+  let lab := fun (x y z : Nat) => C (pt x y z)
+  let one := fun (a b : List Rat) : Option String => do
+    -- the unrefined vertex is the midpoint `a.Mid(b)`
+    let m := (a.zip b).map fun p => (p.1 + p.2) / 2
+    let (k, lo, hi) ← Bisect.lookupEdgePoint origin d m
+    let res := Bisect.mcSearchPoint (fun v => C (setAt m k v)) lo hi iters
+    let s := show3 (setAt m k res.1)
+    if interior == 1 then some (s ++ "|" ++ show3 (setAt m k res.2)) else some s
+  let cands : List (List Rat × List Rat) :=
+    (List.range nz).flatMap fun z => (List.range ny).flatMap fun y => (List.range nx).flatMap fun x =>
+      (if x + 1 < nx && lab x y z != lab (x+1) y z then [(pt x y z, pt (x+1) y z)] else []) ++
+      (if y + 1 < ny && lab x y z != lab x (y+1) z then [(pt x y z, pt x (y+1) z)] else []) ++
+      (if z + 1 < nz && lab x y z != lab x y (z+1) then [(pt x y z, pt x y (z+1))] else [])
+  match cands.mapM fun p => one p.1 p.2 with
+  | none => some "panic:vertex_not_on_edge"
+  | some vs =>
+    let vs := sortStrs vs
+    some s!"n={vs.length} side=1 near=1 in=1 {";".intercalate vs}"
+
+/-- `mss iters ox oy delta NX NY <csg>`: 2-D twin.  The end `msSearch` treats as contained is the one
+the normal-sign rule selects; by `ms_normal_picks_contained_end` that is the end labelled inside,
+which is what is used here. -/
+def handleMss (ws : List String) : Option String := do
+  let iters ← (← ws[0]?).toNat?
+  let (o, r) ← takeRats 3 (ws.drop 1)
+  let nx ← (← r[0]?).toNat?; let ny ← (← r[1]?).toNat?
+  let (t, _) ← parseCsg (r.drop 2)
+  let d := o[2]!
+  let mn := [o[0]! + d, o[1]! + d]      -- the solid's Min(): the lattice starts at Min() - delta
+  let pt := fun (x y : Nat) => [o[0]! + (x : Rat) * d, o[1]! + (y : Rat) * d]
+  let C := fun (c : List Rat) => contains t (c.getD 0 0) (c.getD 1 0) 0
+  let lab := fun (x y : Nat) => C (pt x y)
+  let one := fun (a b : List Rat) : Option String => do
+    let m := (a.zip b).map fun p => (p.1 + p.2) / 2
+    if iters == 0 then some (show3 m) else
+    let (k, lo, hi) ← Bisect.msLookup mn d m
+    -- normal component along the edge axis is positive iff the excluded end is the upper one
+    let normalPos := C (setAt m k lo)
+    let res := Bisect.msSearchPoint (fun v => C (setAt m k v)) lo hi normalPos iters
+    some (show3 (setAt m k res))
+  let cands : List (List Rat × List Rat) :=
+    (List.range ny).flatMap fun y => (List.range nx).flatMap fun x =>
+      (if x + 1 < nx && lab x y != lab (x+1) y then [(pt x y, pt (x+1) y)] else []) ++
+      (if y + 1 < ny && lab x y != lab x (y+1) then [(pt x y, pt x (y+1))] else [])
+  match cands.mapM fun p => one p.1 p.2 with
+  | none => some "panic:vertex_not_on_edge"
+  | some vs =>
+    let vs := sortStrs vs
+    some s!"n={vs.length} side=1 near=1 {";".intercalate vs}"
+
+/-! ### `SolidSurfaceEstimator` at `Float`, bit for bit -/
+
+def hex3 (p : Bisect.V3 Float) : String := s!"{hexOfFloat p.x} {hexOfFloat p.y} {hexOfFloat p.z}"
+
+def handleBis (ws : List String) : Option String := do
+  let which ← ws[0]?
+  let count ← (← ws[1]?).toNat?
+  let axis ← (← ws[2]?).toNat?
+  let up ← (← ws[3]?).toNat?
+  let fs ← parseFloats (ws.drop 4)
+  let [thr, a, b, c, d, e, f] := fs | none
+  let p1 : Bisect.V3 Float := ⟨a, b, c⟩
+  let p2 : Bisect.V3 Float := ⟨d, e, f⟩
+  let C := fun (p : Bisect.V3 Float) =>
+    let v := if axis == 0 then p.x else if axis == 1 then p.y else p.z
+    if up == 1 then v >= thr else v <= thr
+  if which == "bisect" then some (hex3 (Bisect.bisectPoint C p1 p2 count))
+  else
+    -- the property: the reported interior point is contained
+    some (hex3 (Bisect.bisectInterior C p1 p2 count) ++ " in=1")
+
+/-! ### dual contouring -/
+
+open M3d.DC in
+def handleDcIdx (ws : List String) : Option String := do
+  let nx ← (← ws[0]?).toNat?; let ny ← (← ws[1]?).toNat?; let rows ← (← ws[2]?).toNat?
+  let oi := fun (o : Option Nat) => match o with | some n => toString n | none => "-1"
+  let es := (List.range (numEdges nx ny rows)).map fun e =>
+    let k := edgeCorners nx ny e
+    s!"{e}:{",".intercalate ((edgeCubes nx ny rows e).map oi)}:{k.1},{k.2};"
+  let cs := (List.range (numCubes nx ny rows)).map fun c =>
+    s!"{c}:{",".intercalate ((cubeEdges nx ny c).map toString)}:{",".intercalate ((cubeCorners nx ny c).map toString)};"
+  some (String.join es ++ " " ++ String.join cs)
+
+/-- `BufRows = clamp(bufSize / (|Xs||Ys|), 4, |Zs|)`, `bufSize = 0` meaning the default 1 000 000. -/
+def bufRows (nx ny nz buf : Nat) : Nat :=
+  let buf := if buf == 0 then 1000000 else buf
+  min (max (buf / (nx * ny)) 4) nz
+
+open M3d.DC in
+def handleDcSz (ws : List String) : Option String := do
+  let nx ← (← ws[0]?).toNat?; let ny ← (← ws[1]?).toNat?; let nz ← (← ws[2]?).toNat?
+  let buf ← (← ws[3]?).toNat?
+  let r := bufRows nx ny nz buf
+  some s!"{numCorners nx ny r} {numCubes nx ny r} {numEdges nx ny r} {r}"
+
+def cellLt (a b : Nat × Nat × Nat) : Bool :=
+  a.1 < b.1 || (a.1 == b.1 && (a.2.1 < b.2.1 || (a.2.1 == b.2.1 && a.2.2 < b.2.2)))
+
+def rotateToMin (q : List (Nat × Nat × Nat)) : List (Nat × Nat × Nat) :=
+  match q with
+  | [] => []
+  | c0 :: _ =>
+    let best := (q.zipIdx).foldl (fun (acc : (Nat × Nat × Nat) × Nat) ci =>
+      if cellLt ci.1 acc.1 then ci else acc) (c0, 0)
+    q.drop best.2 ++ q.take best.2
+
+open M3d.DC in
+/-- `dc NX NY NZ bits I …` / `dcr …`: what the property demands of the clipped dual-contouring mesh
+of this labelling: one quad per lattice edge whose ends differ (the four cells round the edge in
+the model's orientation), every vertex strictly inside its cell, every lattice edge crossed exactly
+once iff its ends differ with the normal pointing from the contained to the excluded end, one
+contained interior point per such edge. -/
+def handleDc (repair : Bool) (ws : List String) : Option String := do
+  let nx ← (← ws[0]?).toNat?; let ny ← (← ws[1]?).toNat?; let nz ← (← ws[2]?).toNat?
+  let b := bitsOf (← ws[3]?)
+  let wantInterior ← (← ws[4]?).toNat?
+  if b.size ≠ nx * ny * nz then none
+  let lab : Lab := fun x y z =>
+    if x ≥ nx || y ≥ ny || z ≥ nz then false else b.getD (x + nx * (y + ny * z)) false
+  let qs := quads nx ny nz lab
+  let ename := fun (e : EdgeC) => s!"{e.axis}.{e.x}.{e.y}.{e.z}"
+  let cname := fun (c : Nat × Nat × Nat) => s!"{c.1}.{c.2.1}.{c.2.2}"
+  if qs.any (fun q => q.2.isNone) then some "panic:solid_is_true_outside_of_bounds" else
+  let quadStrs := sortStrs <| qs.map fun q =>
+    ename q.1 ++ ":" ++ ">".intercalate ((rotateToMin (q.2.getD [])).map cname)
+  let crossStrs := sortStrs <| qs.map fun q =>
+    ename q.1 ++ ":1:" ++ (if lab q.1.x q.1.y q.1.z then "+" else "-")
+  let orientOk := qs.all fun q => quadOrientedOk nx ny nz lab q.1
+  if !orientOk then some "model-quad-orientation-inconsistent" else
+  let lst := fun (l : List String) => if l.isEmpty then "-" else ";".intercalate l
+  let interior := if wantInterior == 1 then "0/1" else "-"
+  if repair then some s!"cross={lst crossStrs} interior={interior}"
+  else some s!"quads={lst quadStrs} incell=1 cross={lst crossStrs} interior={interior}"
+
+def handleAll (ws : List String) : Option String :=
+  match ws with
+  | "mcv" :: rest => handleMcv rest
+  | "msv" :: rest => handleMsv rest
+  | "mcs" :: rest => handleMcs rest
+  | "mss" :: rest => handleMss rest
+  | "bis" :: rest => handleBis rest
+  | "dcidx" :: rest => handleDcIdx rest
+  | "dcsz" :: rest => handleDcSz rest
+  | "dc" :: rest => handleDc false rest
+  | "dcr" :: rest => handleDc true rest
+  | _ => none
 
 end M3d.Drv.C02
